@@ -650,7 +650,8 @@ impl Decodable for Secret {
             }
             SecretType::List => {
                 let items_len = reader.read_u32().await?;
-                let mut items = HashMap::with_capacity(items_len as usize);
+                // Length is untrusted so do not preallocate
+                let mut items = HashMap::new();
                 for _ in 0..items_len {
                     let key = reader.read_string().await?;
                     let value = secrecy::SecretBox::new(
